@@ -465,7 +465,11 @@ func runC10(c *Ctx) {
 				nkk := len(enc) - 98
 				t2 := tokens.Token{TokenType: uint16(m[0])<<8 | uint16(m[1]), Nonce: m[2:34], Context: m[34:66], KeyID: m[66:98], Authenticator: m[98 : 98+nkk]}
 				verify("flip", ty, keyseed, t2, "fail")
+				// the same variant as it arrives: through the type's own token decoder, then Verify
+				c10Wire(c, ty, keyseed, m, enc)
 			}
+			c10Wire(c, ty, keyseed, enc, enc)
+			c10KeyObject(c, r, ty, k)
 			// authenticators changed in several bytes at once (differences that cancel under a sum, an xor-fold, or a
 			// comparison that stops early or looks at part of the string), and proper prefixes/suffixes
 			{
@@ -570,6 +574,140 @@ func runC10(c *Ctx) {
 			verify("foreign-key-or-type", b.ty, b.keyseed, a.tok, "fail")
 		}
 	}
+}
+
+// c10Wire: a token as it arrives on the wire goes through the type's own decoder and then Verify; what verifies is
+// exactly the encoding that was issued (every bit of the fixed-width encoding is a bit of a field).
+func c10Wire(c *Ctx, ty int, keyseed, wire, issued []byte) {
+	verdict := "undecodable"
+	if Try(func() {
+		var tok tokens.Token
+		var err error
+		if ty == 1 {
+			tok, err = type1.UnmarshalPrivateToken(wire)
+		} else {
+			tok, err = type5.UnmarshalBatchedPrivateToken(wire)
+		}
+		if err != nil {
+			return
+		}
+		ks := hx(keyseed)
+		if ty == 1 {
+			iss, ok := c10iss1[ks]
+			if !ok {
+				iss = type1.NewBasicPrivateIssuer(oprfKey(oprf.SuiteP384, keyseed))
+				c10iss1[ks] = iss
+			}
+			err = iss.Verify(tok)
+		} else {
+			iss, ok := c10iss5[ks]
+			if !ok {
+				iss = type5.NewBatchedPrivateIssuer(oprfKey(oprf.SuiteRistretto255, keyseed))
+				c10iss5[ks] = iss
+			}
+			err = iss.Verify(tok)
+		}
+		verdict = "fail"
+		if err == nil {
+			verdict = "ok"
+		}
+	}) {
+		verdict = "panic"
+	}
+	c.Count("wire:" + verdict)
+	same := bytes.Equal(wire, issued)
+	c.Direct((verdict == "ok") == same && verdict != "panic", "a token decoded from the wire and verified: only the issued encoding may verify",
+		map[string]any{"issuer_type": ty, "keyseed": string(keyseed), "wire": hx(wire), "issued": hx(issued), "verdict": verdict})
+}
+
+// c10KeyObject: "that issuer's key" is one key for Evaluate and Verify alike. The caller's key object is decoded
+// over with another key after the issuer was built (a key loader reusing its object). Whichever of the two keys the
+// issuer then evaluates requests with (seen by multiplying the blinded element by each scalar directly), Verify
+// accepts the authenticators of that key and rejects those of the other.
+func c10KeyObject(c *Ctx, r *Rng, ty int, k int) {
+	suite, g := oprf.SuiteP384, group.P384
+	if ty == 5 {
+		suite, g = oprf.SuiteRistretto255, group.Ristretto255
+	}
+	seedA, seedB := []byte(fmt.Sprintf("c10-obj-a-%d", k)), []byte(fmt.Sprintf("c10-obj-b-%d", k))
+	obj := oprfKey(suite, seedA)
+	encA, err := obj.MarshalBinary()
+	must(err)
+	encB, err := oprfKey(suite, seedB).MarshalBinary()
+	must(err)
+	nonce, ch := r.Bytes(32), r.Bytes(8)
+	var blinded, evaluated []byte
+	var verifyTok func(tokens.Token) error
+	var kid []byte
+	var evalErr error
+	panicked := Try(func() {
+		if ty == 1 {
+			iss := type1.NewBasicPrivateIssuer(obj)
+			st, err := type1.NewBasicPrivateClient().CreateTokenRequest(ch, nonce, iss.TokenKeyID(), iss.TokenKey())
+			must(err)
+			kid = iss.TokenKeyID()
+			must(obj.UnmarshalBinary(suite, encB)) // the caller's object now holds another key
+			blinded = st.Request().BlindedReq
+			resp, err := iss.Evaluate(st.Request())
+			evalErr = err
+			if err == nil && len(resp) >= 49 {
+				evaluated = resp[:49]
+			}
+			verifyTok = iss.Verify
+		} else {
+			iss := type5.NewBatchedPrivateIssuer(obj)
+			st, err := type5.NewBatchedPrivateClient().CreateTokenRequest(ch, [][]byte{nonce}, iss.TokenKeyID(), iss.TokenKey())
+			must(err)
+			kid = iss.TokenKeyID()
+			must(obj.UnmarshalBinary(suite, encB))
+			blinded = st.Request().BlindedReq[0]
+			resp, err := iss.Evaluate(st.Request())
+			evalErr = err
+			if err == nil && len(resp) >= 33 {
+				evaluated = resp[1:33]
+			}
+			verifyTok = iss.Verify
+		}
+	})
+	if panicked || evalErr != nil || evaluated == nil {
+		c.Direct(false, "issuer fails after the caller's key object was decoded over", map[string]any{"issuer_type": ty, "k": k, "panicked": panicked, "err": fmt.Sprint(evalErr)})
+		return
+	}
+	mul := func(scalarEnc []byte) []byte {
+		e, sc := g.NewElement(), g.NewScalar()
+		must(e.UnmarshalBinary(blinded))
+		must(sc.UnmarshalBinary(scalarEnc))
+		out, err := g.NewElement().Mul(e, sc).MarshalBinaryCompress()
+		must(err)
+		return out
+	}
+	evalKey := "neither"
+	if bytes.Equal(evaluated, mul(encA)) {
+		evalKey = "first"
+	} else if bytes.Equal(evaluated, mul(encB)) {
+		evalKey = "second"
+	}
+	tok := tokens.Token{TokenType: uint16(ty), Nonce: nonce, Context: r.Bytes(32), KeyID: kid}
+	verdict := func(seed []byte) string {
+		t := tok
+		t.Authenticator = c10PRF(ty, seed, tok.AuthenticatorInput())
+		out := "fail"
+		if Try(func() {
+			if verifyTok(t) == nil {
+				out = "ok"
+			}
+		}) {
+			out = "panic"
+		}
+		return out
+	}
+	vA, vB := verdict(seedA), verdict(seedB)
+	c.Count("key-object-reused:evaluates-with-" + evalKey)
+	want := map[string][2]string{"first": {"ok", "fail"}, "second": {"fail", "ok"}}[evalKey]
+	c.Direct(evalKey != "neither" && vA == want[0] && vB == want[1],
+		"after the caller's key object was decoded over with another key, Verify and Evaluate of one issuer use different keys",
+		map[string]any{"issuer_type": ty, "seed_first": string(seedA), "seed_second": string(seedB), "evaluates_with": evalKey,
+			"verify_authenticator_of_first": vA, "verify_authenticator_of_second": vB, "token_input": hx(tok.AuthenticatorInput())})
 }
 
 func runC02(c *Ctx) {
